@@ -34,7 +34,9 @@ def run(ctx, gen_status):
         bs = gen_batches(r, False)
         N = max([x for b in bs for x in b] + [5]) + 1
         eqv.append({'seed': r.randint(0, 10**6), 'N': N, 'batches': bs, 'maxphys': r.randint(1, 5), 'mode': r.choice(['hooks', 'hooks', 'ghost', 'functorch']),
-                    'red': r.choice(['mean', 'sum']), 'acc': r.choice(['rdp', 'prv']), 'nm': r.choice([0.0, 1.3]), 'epochs': r.choice([1, 2])})
+                    'red': r.choice(['mean', 'sum']), 'acc': r.choice(['rdp', 'prv']), 'nm': r.choice([0.0, 1.3]), 'epochs': r.choice([1, 2]), 'prefetch': r.random() < 0.5})
+    # corner: an empty logical batch followed by a batch that is split, with the sampler running ahead of training
+    eqv.append({'seed': 4, 'N': 12, 'batches': [[0, 1], [], [2, 3, 4, 5, 6], [7]], 'maxphys': 2, 'mode': 'hooks', 'red': 'mean', 'acc': 'rdp', 'nm': 1.3, 'epochs': 1, 'prefetch': True})
     res = vlib.run_impl('bmm_equiv.py', {'equiv': eqv, 'sampler': samp}, timeout=7200)
     for c, rr in zip(eqv, res['equiv']):
         big = any(len(b) > c['maxphys'] for b in c['batches'])
@@ -86,7 +88,7 @@ def search(ctx):
         for red in ['mean', 'sum']:
             for mp in [1, 2, 3, 4]:
                 eqv.append({'seed': 5, 'N': 30, 'batches': [[0, 1, 2, 3, 4, 5, 6], [7, 8, 9], [], [10, 11, 12, 13, 14, 15, 16, 17, 18], [19, 20, 21, 22]],
-                            'maxphys': mp, 'mode': mode, 'red': red, 'acc': 'rdp', 'nm': 1.3, 'epochs': 2})
+                            'maxphys': mp, 'mode': mode, 'red': red, 'acc': 'rdp', 'nm': 1.3, 'epochs': 2, 'prefetch': mp % 2 == 0})
     res = vlib.run_impl('bmm_equiv.py', {'equiv': eqv, 'sampler': []}, timeout=7200)
     for c, rr in zip(eqv, res['equiv']):
         ctx.case(c, kind='search')
